@@ -79,7 +79,7 @@ func generate(cfg *hx.Config) []hx.Case {
 		for _, e := range exs {
 			hasConnect = hasConnect || e.Meth == 'C'
 		}
-		if !hasConnect && n%3 == 0 {
+		if !hasConnect && n%3 == 0 && !strings.HasPrefix(mode, "s") {
 			mode = "m" + mode
 		}
 		cases = append(cases, caseOf(fmt.Sprintf("%s%d", kind, n), mode, exs))
@@ -200,6 +200,42 @@ func generate(cfg *hx.Config) []hx.Case {
 		add("dial", "seq", &exch{ID: id(r), Meth: 'C', Outcome: "ok", Status: 200, Framing: "c", BodyLen: 9})
 		add("dial", "seq", okEx(id(r), 'G', "c", 3, nil), &exch{ID: id(r), Meth: 'C', Outcome: "tmo", Status: 200, Framing: "c", BodyLen: 4},
 			&exch{ID: id(r), Meth: 'C', Outcome: "ok", Status: 200, Framing: "k", BodyLen: 9, Sizes: []int{4}}, okEx(id(r), 'G', "c", 3, nil))
+	}
+	// slow failures on the proxy with the short timeout: the connection lives
+	// longer than SetTimeout although every exchange stays far below it
+	ns := 8
+	if cfg.Thorough() {
+		ns = 40
+	}
+	for k := 0; k < ns; k++ {
+		r := rng.Fork()
+		var exs []*exch
+		for i := 0; i < r.Range(5, 6); i++ {
+			e := &exch{ID: i*15 + r.Intn(15), Meth: "GGPH"[r.Intn(4)], Status: 200, Framing: "c", BodyLen: r.Range(0, 20), Delay: 400}
+			if e.Meth == 'H' {
+				e.Framing = "n"
+			}
+			switch r.Intn(7) {
+			case 0, 1:
+				e.Outcome = pick(r, "ref", "tmo", "dns")
+				if r.Chance(1, 3) {
+					e.Meth, e.Framing = 'C', "c"
+				}
+			case 2:
+				e.Outcome = "ref"
+			case 3:
+				e.Outcome, e.K = "gar", r.Intn(len(garbage))
+			case 4:
+				e.Outcome, e.K = "cut", r.Intn(len(e.head()))
+			default:
+				e.Outcome = "ok"
+			}
+			if k < 2 { // the plainest shape: dial failures only
+				e.Meth, e.Framing, e.Outcome = 'G', "c", []string{"ref", "tmo"}[k]
+			}
+			exs = append(exs, e)
+		}
+		add("slow", "sseq", exs...)
 	}
 	// random mixtures
 	nr := 60
@@ -451,6 +487,11 @@ func corpus() []hx.Case {
 	for g := 10; g < len(garbage); g++ {
 		add(fmt.Sprintf("garbage-echoed-into-warning-%d", g), "seq", &exch{ID: 16, Meth: 'G', Outcome: "gar", K: g, Status: 200, Framing: "c", BodyLen: 4}, okEx(17, 'G', "c", 5, nil))
 	}
+	var slow []*exch
+	for i := 0; i < 5; i++ {
+		slow = append(slow, &exch{ID: 20 + i, Meth: 'G', Outcome: []string{"ref", "tmo", "ref", "dns", "ref"}[i], Status: 200, Framing: "c", BodyLen: 4, Delay: 400})
+	}
+	add("slow-dial-failures-outlive-the-proxy-timeout", "sseq", slow...)
 	cs = append(cs,
 		hx.Case{Name: "mitm-connect-then-close", In: []string{"CST", "m", "connect", "close"}},
 		hx.Case{Name: "mitm-connect-then-silence", In: []string{"CST", "m", "connect", fmt.Sprintf("wait%d", int(mitmTimeout.Milliseconds())+500), "read"}},
